@@ -646,8 +646,74 @@ fn underpromo_strategy() -> impl Strategy<Value = UnderPromo> {
         .prop_map(|(white, file, ksel, fill, ak, capture, extra)| UnderPromo { white, file, ksel, fill, ak, capture, extra })
 }
 
+/// Exhaustive mini-family: king + one minor piece against king + one minor piece with the
+/// defending king in a corner region, attacker to move - every such position that contains a mate in
+/// one (the material a "draw by insufficient material" shortcut would get wrong).
+fn minor_piece_decode(i: u64) -> Option<Pos> {
+    let mut i = i;
+    let dkind = if i % 2 == 0 { Kind::Knight } else { Kind::Bishop };
+    i /= 2;
+    let doff = (i % 25) as i8;
+    i /= 25;
+    let akind = if i % 2 == 0 { Kind::Knight } else { Kind::Bishop };
+    i /= 2;
+    let asq = (i % 64) as u8;
+    i /= 64;
+    let aoff = (i % 25) as i8;
+    i /= 25;
+    let region: [u8; 12] = [0, 1, 8, 7, 6, 15, 56, 57, 48, 63, 62, 55];
+    let dk = region[(i % 12) as usize];
+    i /= 12;
+    let att = if i % 2 == 0 { Color::White } else { Color::Black };
+    let near = |o: i8| mk(file_of(dk) + o % 5 - 2, rank_of(dk) + o / 5 - 2);
+    let ak = near(aoff)?;
+    let dm = near(doff)?;
+    let mut p = Pos::empty();
+    for (s, man) in [(dk, (att.opp(), Kind::King)), (ak, (att, Kind::King)), (asq, (att, akind)), (dm, (att.opp(), dkind))] {
+        if p.sq[s as usize].is_some() {
+            return None;
+        }
+        p.sq[s as usize] = Some(man);
+    }
+    p.stm = att;
+    if !p.is_legal_position() {
+        return None;
+    }
+    if p.legal_moves().iter().any(|m| is_mate_move(&p, m)) {
+        Some(p)
+    } else {
+        None
+    }
+}
+const MINOR_SPACE: u64 = 2 * 25 * 2 * 64 * 25 * 12 * 2;
+
 pub fn run_c11(ctx: &mut Ctx) {
     let t = ctx.tier;
+    {
+        let kmax: u64 = t.pick(3_000, 10_000);
+        run_enum(
+            ctx,
+            "minor_piece_mates_in_one_exhaustive",
+            MINOR_SPACE,
+            true,
+            move |i, st| {
+                let Some(p) = minor_piece_decode(i) else { return Ok(()) };
+                let Ok(case) = make_case(&p, &[]) else { return Ok(()) };
+                if st.samples.len() < 2 {
+                    st.sample(|| case_json(&p, &[]));
+                }
+                c11_case(&case, kmax, st)
+            },
+            move |i| {
+                let mut v = match minor_piece_decode(i) {
+                    Some(p) => case_json(&p, &[]),
+                    None => json!({"fen": null}),
+                };
+                v["kmax"] = json!(kmax);
+                v
+            },
+        );
+    }
     ctx.max_shrink_iters = 200;
     let kmax: u64 = t.pick(4_000, 12_000);
     run_prop(
